@@ -60,15 +60,16 @@ TABLE_NOTE = (
     "wrappers, wrappers kept by the caller across later edits (C08 / C10), row/column styles, spans, and the order of "
     "column and row elements among the table's children - these are decided by the correspondence / lxml oracles of the check at every step. The history "
     "theorems exclude one state: rows without any declared column (only reachable by deleting the last column of a table that has rows), where the property "
-    "does not say what a later operation should declare; histories are cut there on both sides. The proved alphabet holds 13 operations incl. the bulk setters set_cells and "
-    "set_values (with the fast path of Row.set_values); set_row_values / set_row_cells are instances of set_row; set_column_values has its own one-step "
+    "does not say what a later operation should declare; histories are cut there on both sides. The proved alphabet holds 15 operations incl. the bulk setters set_cells and "
+    "set_values (with the fast path of Row.set_values) and the whole-table transformations rstrip(aggressive) and transpose(); set_row_values / set_row_cells are instances of set_row; set_column_values has its own one-step "
     "refinement theorem (it is defined only for a list as long as the table is high, so it is not a member of the history alphabet). "
 )
 CHECKS["C01"] = dict(
     text="Refinement proof: for every coherent run-length state, every operation of the alphabet (set/insert/append/delete of cells, rows, columns, with "
-    "repeats on arguments and targets, and the matrix setters set_cells / set_values), every integer coordinate and every repeat >= 1, the model step succeeds and denotes exactly the list-of-lists "
+    "repeats on arguments and targets, the matrix setters set_cells / set_values, rstrip and transpose), every integer coordinate and every repeat >= 1, the model step succeeds and denotes exactly the list-of-lists "
     "operation (step_refines); by induction every finite history does (history_refines, history_reads); the three vault edits incl. overlap trimming are "
-    "proved at the run-length level. Correspondence: ~7000 steps per quick run of random histories (Table API and Row API) over random encodings, model vs "
+    "proved at the run-length level; history_through_caches_is_the_grid composes this with the object layer of C02: a history of the 15 mutators interleaved with "
+    "cache-filling reads, run through the wrapper caches, answers at every step what the plain grid answers. Correspondence: ~7000 steps per quick run of random histories (Table API and Row API) over random encodings, model vs "
     "implementation (lxml reading) vs Lean spec grid vs Python reference grid, all reads compared after every step.",
     note=TABLE_NOTE,
     technique="Lean 4 refinement proof (abstraction function, per-op simulation, induction over histories) + differential correspondence on histories",
@@ -79,7 +80,7 @@ CHECKS["C02"] = dict(
     "covers the position, hence after every history the live table IS the fresh parse of its own XML (reparse_id, history_fresh) and sizes are the sums of "
     "repeats. OBJECT LAYER (the caches the property is anchored in): in OdfModel/TableObj.lean a read is served from whatever an earlier read cached "
     "(_indexes['_tmap'], the wrapper's own _rmap, its cached cells), an edit of an unrepeated row goes through the cached wrapper in place, caches are emptied "
-    "exactly where the code empties them; proved: every one of the 13 operations made through coherent caches does to the XML what it does without caches "
+    "exactly where the code empties them; proved: every one of the 15 operations made through coherent caches does to the XML what it does without caches "
     "(cached_step_refines) and leaves every cached wrapper describing the element at its key (cached_step_keeps_caches); get_value / get_row_values served from "
     "the caches answer what the fresh parse answers (cached_get_value_fresh, cached_row_values_fresh); hence for EVERY history of mutations interleaved with "
     "cache-filling reads every answer and the XML are those of the fresh parse at every step (cached_history_fresh). Counter-example theorem for known finding "
